@@ -672,19 +672,42 @@ func (r *reporter) flush(mets []m3thrift.Metric) []m3thrift.Metric {
 func (r *reporter) convertTags(tags map[string]string) []m3thrift.MetricTag {
 	key := cache.TagMapKey(tags)
 
+	// n.b. The cache key is a hash of the "k=v" strings, different tag maps
+	//      can share it (e.g. {a: "b=c"} and {"a=b": "c"}), so a cached entry
+	//      is only used if it really holds these tags.
 	mtags, ok := r.tagCache.Get(key)
+	if ok && metricTagsEqual(mtags, tags) {
+		return mtags
+	}
+
+	mtags = r.resourcePool.getMetricTagSlice()
+	for k, v := range tags {
+		mtags = append(mtags, m3thrift.MetricTag{
+			Name:  r.stringInterner.Intern(k),
+			Value: r.stringInterner.Intern(v),
+		})
+	}
+
 	if !ok {
-		mtags = r.resourcePool.getMetricTagSlice()
-		for k, v := range tags {
-			mtags = append(mtags, m3thrift.MetricTag{
-				Name:  r.stringInterner.Intern(k),
-				Value: r.stringInterner.Intern(v),
-			})
+		// n.b. Set returns the pre-existing entry if there is one by now.
+		if cached := r.tagCache.Set(key, mtags); metricTagsEqual(cached, tags) {
+			return cached
 		}
-		mtags = r.tagCache.Set(key, mtags)
 	}
 
 	return mtags
+}
+
+func metricTagsEqual(mtags []m3thrift.MetricTag, tags map[string]string) bool {
+	if len(mtags) != len(tags) {
+		return false
+	}
+	for _, t := range mtags {
+		if v, ok := tags[t.Name]; !ok || v != t.Value {
+			return false
+		}
+	}
+	return true
 }
 
 func (r *reporter) reportInternalMetrics() {
